@@ -1404,7 +1404,9 @@ impl Checker {
             }
         };
 
-        let resolved_path = working_dir.join(path);
+        // Normalised, so that `d/../x` and `x` are the same path for the cache and the
+        // cycle check below.
+        let resolved_path = crate::path::normalize(working_dir.join(path));
 
         // Check the cache first
         if let Some(cached) = self.shape_cache.borrow().get(&resolved_path) {
